@@ -12,11 +12,13 @@ import (
 	"os"
 	"os/exec"
 	"path/filepath"
+	"strconv"
 	"strings"
 )
 
 type Twin struct {
-	bin string
+	bin     string
+	seconds int
 }
 
 type twinReq struct {
@@ -52,7 +54,11 @@ func buildTwin() (*Twin, error) {
 func (t *Twin) Close() { os.Remove(t.bin) }
 
 // RunBatch runs the requests in one process (a crash of the process is reported per request).
-func (t *Twin) RunBatch(reqs []twinReq) ([][]string, error) {
+func (t *Twin) RunBatch(reqs []twinReq) ([][]string, error) { return t.RunBatchT(reqs, 120) }
+
+// RunBatchT: like RunBatch with a wall-clock limit per process.
+func (t *Twin) RunBatchT(reqs []twinReq, seconds int) ([][]string, error) {
+	t.seconds = seconds
 	res := make([][]string, len(reqs))
 	i := 0
 	for i < len(reqs) {
@@ -71,7 +77,7 @@ func (t *Twin) RunBatch(reqs []twinReq) ([][]string, error) {
 }
 
 func (t *Twin) runFrom(reqs []twinReq, res [][]string, start int) (int, error) {
-	cmd := exec.Command("timeout", "120", t.bin)
+	cmd := exec.Command("timeout", strconv.Itoa(t.seconds), t.bin)
 	stdin, err := cmd.StdinPipe()
 	if err != nil {
 		return start, err
